@@ -13,7 +13,7 @@ RULE = ("deterministic virtual-clock event loop; a real BaseClient (recording se
         "process_message; timeout in {none, 2.25, 4.25, 7.25} (never tying with the grid), polling in {off, delay 1/interval 1, delay "
         "2/interval 3}, condition kind {expect, initial, check} x event kind {value, state, value+state = a check that also reads the vector's state, where one "
         "message changes both, any = no element filter and default event type, where the "
-        "non-matching events are re-definitions raising value, state and definition events}. In every ninth run all messages carry the same (one-second resolution) timestamp. In every seventh run the client itself writes and submits each matching value just before the device confirms it. In every fifth run each non-matching event is preceded by the whole device being deleted (delProperty without a name) and defined again. The complete grid is enumerated (quick: 6 "
+        "non-matching events are re-definitions raising value, state and definition events}. In every ninth run all messages carry the same (one-second resolution) timestamp. In every seventh run the client itself writes and submits each matching value just before the device confirms it. In every fifth run each non-matching event is preceded by the whole device being deleted (delProperty without a name) and defined again. In two runs of eight the waits leave an upper filter level open and name a lower one (vector+element without device; device+element without vector) while a decoy property of the same device reports, in another element, the very value / state the waits are waiting for ahead of every non-matching event; polls must address what the wait named. The complete grid is enumerated (quick: 6 "
         "points, thorough: 7 points). Oracle: the wait returns the FIRST matching event object (identity, from a "
         "spy tapping trigger_event; the callback registry holds only what the waits registered) at that event's virtual instant, or raises at exactly the timeout instant - never both, never neither; getProperties "
         "polls happen exactly at delay + k*interval while waiting and never after completion; no callback stays registered. "
